@@ -3,10 +3,10 @@ package interp
 import (
 	"encoding/json"
 	"fmt"
-	"os"
-	"os/exec"
 	"go/token"
 	"go/types"
+	"os"
+	"os/exec"
 	"sort"
 	"strings"
 	"sync"
@@ -50,25 +50,25 @@ func DefaultConfig() Config {
 
 // Explorer runs one harness entry to exhaustion (re-execution DFS).
 type Explorer struct {
-	Cfg     Config
-	Prog    *ssa.Program
-	Entry   *ssa.Function
-	Args    []int64 // concrete int arguments of the entry
-	Replace map[string]*ssa.Function
+	Cfg      Config
+	Prog     *ssa.Program
+	Entry    *ssa.Function
+	Args     []int64 // concrete int arguments of the entry
+	Replace  map[string]*ssa.Function
 	KnownIDs map[string]bool
 	InitPkgs func(p *ssa.Package) bool // may the engine run this package's init?
 	OnExit   func(w *Worker, code int)
 
-	Sem       chan struct{} // global worker slots shared by concurrently running explorers
-	wg        sync.WaitGroup
-	nworkers  int
-	active    int
-	mu        sync.Mutex
-	work      []workItem
-	busy      int
-	stop      bool
-	cond      *sync.Cond
-	start     time.Time
+	Sem      chan struct{} // global worker slots shared by concurrently running explorers
+	wg       sync.WaitGroup
+	nworkers int
+	active   int
+	mu       sync.Mutex
+	work     []workItem
+	busy     int
+	stop     bool
+	cond     *sync.Cond
+	start    time.Time
 
 	// results
 	Paths, PathsOK, PathsInfeasible, PathsInconclusive int64
@@ -311,20 +311,20 @@ type Worker struct {
 	path   *Path
 	sched  *Sched
 
-	globals     map[*ssa.Global]*Value // per path
-	shared      map[*ssa.Global]*Value // stdlib state, initialised once per worker
-	initDone    map[*ssa.Package]bool  // per path
-	sharedInit  map[*ssa.Package]bool
-	inInit      int
-	knownPanics []knownPanic
-	env         map[string]Str
+	globals       map[*ssa.Global]*Value // per path
+	shared        map[*ssa.Global]*Value // stdlib state, initialised once per worker
+	initDone      map[*ssa.Package]bool  // per path
+	sharedInit    map[*ssa.Package]bool
+	inInit        int
+	knownPanics   []knownPanic
+	env           map[string]Str
 	allowDeadlock bool
-	pathsRun    int
-	timers      map[*Value]*timerInfo
-	ptrIDs      map[interface{}]int
-	out         []*smt.Term
-	floatText   map[int64]Str
-	floatByText map[string]*smt.Term
+	pathsRun      int
+	timers        map[*Value]*timerInfo
+	ptrIDs        map[interface{}]int
+	out           []*smt.Term
+	floatText     map[int64]Str
+	floatByText   map[string]*smt.Term
 }
 
 func newWorker(ex *Explorer, id int) (*Worker, error) {
